@@ -71,21 +71,21 @@ Definition oconv_eqb (a b : option conv) : bool :=
 (* binary operators of expr_type; And/Or are the short-circuit boolean operators *)
 Inductive binop :=
   | Add | Sub | Mul | Div | Mod
-  | Lt | Gt | Lte | Gte | Eq | Neq
+  | OLt | OGt | OLe | OGe | OEq | ONe
   | And | Or
   | BAnd | BOr | BXor | Shl | Shr.
 
 Definition binop_eqb (a b : binop) : bool :=
   match a, b with
   | Add, Add | Sub, Sub | Mul, Mul | Div, Div | Mod, Mod
-  | Lt, Lt | Gt, Gt | Lte, Lte | Gte, Gte | Eq, Eq | Neq, Neq
+  | OLt, OLt | OGt, OGt | OLe, OLe | OGe, OGe | OEq, OEq | ONe, ONe
   | And, And | Or, Or
   | BAnd, BAnd | BOr, BOr | BXor, BXor | Shl, Shl | Shr, Shr => true
   | _, _ => false
   end.
 
 Definition all_binop : list binop :=
-  [Add; Sub; Mul; Div; Mod; Lt; Gt; Lte; Gte; Eq; Neq; And; Or; BAnd; BOr; BXor; Shl; Shr].
+  [Add; Sub; Mul; Div; Mod; OLt; OGt; OLe; OGe; OEq; ONe; And; Or; BAnd; BOr; BXor; Shl; Shr].
 
 Inductive unop := Neg | Not | BNot.
 
@@ -97,7 +97,7 @@ Definition all_unop : list unop := [Neg; Not; BNot].
 Definition is_arith (o : binop) : bool :=
   match o with Add | Sub | Mul | Div => true | _ => false end.
 Definition is_cmp (o : binop) : bool :=
-  match o with Lt | Gt | Lte | Gte | Eq | Neq => true | _ => false end.
+  match o with OLt | OGt | OLe | OGe | OEq | ONe => true | _ => false end.
 Definition is_bitop (o : binop) : bool :=
   match o with BAnd | BOr | BXor | Shl | Shr => true | _ => false end.
 
